@@ -13,7 +13,7 @@ from vf.core.smallscope import Fail, hkey, replay_case, run_universe
 from vf.core.universe import TypeCase, Universe, get_universe
 
 LEVEL = "model_checking"
-ROUTES = ("ctor", "setattr", "inplace", "parse", "parse_unknown")
+ROUTES = ("ctor", "setattr", "inplace", "parse", "parse_unknown", "grow_after_len")
 
 UNKNOWN = [
     wire.make_rec(7, wire.VARINT, 300),
@@ -25,6 +25,33 @@ UNKNOWN = [
 
 def build(u: Universe, tc: TypeCase, aval, route: str):
     cls = getattr(u.bp, tc.msg.name)
+    if route == "grow_after_len":
+        # size once, then change the value IN PLACE (list append, map insert, assignment inside a
+        # lazily read sub-message): the size must follow
+        m = av.make_bp(u.bp, u.schema, tc.msg, {}, "ctor")
+        len(m)
+        import io as _io
+        m.dump(_io.BytesIO(), betterproto.SIZE_DELIMITED)
+        for f in tc.msg.fields:
+            if f.name not in aval:
+                continue
+            v = aval[f.name]
+            if f.card == "repeated":
+                for x in v:
+                    getattr(m, f.name).append(av._bp_single(u.bp, u.schema, f, x, "inplace"))
+                    len(m)
+            elif f.card == "map":
+                for k, x in v.items():
+                    getattr(m, f.name)[k] = av._bp_single(u.bp, u.schema, f, x, "inplace")
+                    len(m)
+            elif f.card == "single" and f.base == "msg":
+                sub_m = getattr(m, f.name)
+                len(m)
+                av._bp_fill_inplace(u.bp, u.schema, u.schema.msg(f.kind.split(":", 1)[1]), sub_m, v)
+            else:
+                setattr(m, f.name, av._bp_container(u.bp, u.schema, f, v, "setattr"))
+                len(m)
+        return m
     if route in ("parse", "parse_unknown"):
         ref = av.make_ref(u.schema, u.ref, tc.msg, aval)
         data = ref.SerializeToString()
